@@ -269,6 +269,28 @@ def apis():
         oqupy.state_gradient(system=s, initial_state=rho, target_derivative=target, process_tensors=[pt],
                              parameters=np.ones((6, 1)) * 0.2, progress_type="rec")
 
+    def grad_derivs(fail_at):
+        # user-supplied propagator derivatives: evaluated twice per step in the forward/backward pass and again in the chain-rule
+        # phase (which has a progress object of its own); fail_at odd/even: raises an Exception / a BaseException; fail_at >= 100:
+        # from evaluation fail_at - 100 on it returns an EMPTY list of derivatives (too few for the one parameter)
+        st, tick = counted(fail_at if (fail_at is None or fail_at < 100) else None)
+        def derivs(dt, params):
+            tick()
+            if st["armed"] and fail_at is not None and fail_at >= 100:
+                st["n"] += 1
+                if st["n"] >= fail_at - 100:
+                    return []
+            return [np.zeros((4, 4), dtype=complex)]
+        s = oqupy.ParameterizedSystem(lambda x: x * oqupy.operators.sigma("x"), propagator_derivatives=derivs)
+        st["armed"] = True
+        try:
+            oqupy.state_gradient(system=s, initial_state=rho, target_derivative=np.eye(2), process_tensors=[pt],
+                                 parameters=np.ones((6, 1)) * 0.2, progress_type="rec")
+        except (IndexError, ValueError, AssertionError, TypeError) as ex:
+            if fail_at is None or fail_at < 100:
+                raise
+            raise Boom() from ex
+
     def corr_nt(fail_at):
         st, tick = counted(fail_at)
         def ham(t):
@@ -350,6 +372,7 @@ def apis():
             ("compute_dynamics", False, dyn, True), ("compute_dynamics_with_field", False, dyn_field, True),
             ("compute_gradient_and_dynamics", False, grad, True),
             ("compute_gradient_and_dynamics(callable target)", False, grad_target, True),
+            ("state_gradient(user-supplied propagator derivatives)", False, grad_derivs, [1, 2, 3, 6, 7, 101, 102, 104]),
             ("PtTempo.compute", True, pttempo, [1, 30, 200, 1000]), ("PtTebd.compute", True, tebd, True)]
 
 
